@@ -743,3 +743,17 @@ def subst(x, mapping):
         return out
 
     return sub_poly(x.num).div(sub_poly(x.den))
+
+
+def proportional(a, b):
+    """The Fraction c with a == c*b (a, b non-zero), or None."""
+    a, b = _R(a), _R(b)
+    if not a.num or not b.num:
+        return None
+    P = (a * R(dict(b.den))).num if a.den != b.den else a.num
+    Q = (b * R(dict(a.den))).num if a.den != b.den else b.num
+    m0 = next(iter(Q))
+    if m0 not in P:
+        return None
+    c = P[m0] / Q[m0]
+    return c if a.eq(b * R.const(c)) else None
